@@ -48,9 +48,11 @@ class OsProxy:
         if self._log is not None:
             self._log.append(('remove', os.path.basename(path)))
         hook = self.__dict__.get('_remove_hook')
-        if hook:
-            hook(path)
-        return self._real.remove(path, *a, **kw)
+        after = hook(path) if hook else None
+        ret = self._real.remove(path, *a, **kw)
+        if callable(after):
+            after()
+        return ret
 
     unlink = remove
 
